@@ -8,6 +8,7 @@ CONSTANTS
   MaxCombs = @MAXCOMBS@
   MutW = @MUTW@
   LayoutSel = @LAYOUTS@
+  Focus = @FOCUS@
   OneLine = 120
   UnionLine = 80
   LowerNames <- LowerNamesMC
